@@ -661,6 +661,18 @@ pub fn run_history(ops: &[Value]) -> Outcome {
         let name = by_key(&s.models, y).map(|m| m.name).unwrap_or("none");
         run.op_remove(idx, ns, name, &format!("ns({}),name({})", x, y))
       }
+      "bulk" => {
+        // many disjoint models at once (whatever the workspace does beyond some number of stored models)
+        let n = (pu64(op, "n") as usize).min(BULK_MODELS);
+        let mut r = Ok(());
+        for i in 0..n {
+          r = run.op_add(idx, &format!("X{:02}", i), false);
+          if r.is_err() {
+            break;
+          }
+        }
+        r
+      }
       "clear" => run.op_clear(idx),
       "deploy" => run.op_deploy(idx),
       "eval" => run.op_eval(idx, pstr(op, "m"), if pstr(op, "inv").is_empty() { "d" } else { pstr(op, "inv") }),
@@ -825,6 +837,10 @@ impl Sim for C17 {
     let mut ops = vec![];
     let mut stored: Vec<&str> = vec![];
     let mut deployed = false;
+    // one history in twelve starts by storing 9..24 disjoint models
+    if rng.chance(1, 12) {
+      ops.push(json!({"op": "bulk", "n": 9 + rng.index(16)}));
+    }
     let has = |kinds: &Vec<&str>, k: &str| kinds.iter().any(|x| *x == k);
     for _ in 0..len {
       let mut op = if deployed && has(&kinds, "eval") && rng.chance(1, 2) {
